@@ -89,10 +89,11 @@ class Target(object):
         if kind in ('bound', 'boundcls'):
             # a method object that is already bound when it is decorated: lru_cache(...)(obj.m) / (Cls.cm)
             src = ('class C(object):\n'
-                   '%s'
+                   '%s%s'
                    '    def m(%s):\n'
                    '        _LOG.append(1); _SEEN.append(%s)\n'
-                   '        return %s\n' % ('    @classmethod\n' if kind == 'boundcls' else '', spec_src(spec, True), seen, ret))
+                   '        return %s\n' % ('    def __len__(self):\n        return 0\n' if spec.get('_falsy') else '',
+                                          '    @classmethod\n' if kind == 'boundcls' else '', spec_src(spec, True), seen, ret))
             exec(src, self.ns)
             self.inst = None
             self.plain = self.ns['C'].m if kind == 'boundcls' else self.ns['C']().m
@@ -110,9 +111,11 @@ class Target(object):
             self.inst = None
         elif kind == 'method':
             src = ('class C(object):\n'
+                   '%s'
                    '    def m(%s):\n'
                    '        _LOG.append(1); _SEEN.append(%s)\n'
-                   '        return %s\n' % (spec_src(spec, True), seen, ret))
+                   '        return %s\n' % ('    def __len__(self):\n        return 0\n' if spec.get('_falsy') else '',
+                                          spec_src(spec, True), seen, ret))
             exec(src, self.ns)
             self.inst = self.ns['C']()
             self.plain = self.ns['C'].m           # the function to decorate
@@ -498,6 +501,8 @@ def gen_case(rng, prop):
     if prop == 'C12':
         kind = rng.choice(['func', 'func', 'method'])
     spec = gen_spec(rng)
+    if kind in ('method', 'bound') and rng.random() < 0.3:
+        spec['_falsy'] = True        # the instance is "empty" (__len__() == 0): still an instance
     if prop == 'C10' and rng.random() < 0.15:
         # a lone variadic positional: the only shape whose flat key is a bare, unwrapped scalar
         spec = {'req': [], 'def': [], 'var': True, 'kwonly': [], 'kw': False}
